@@ -61,6 +61,15 @@ def run_component(prop, tier, replay, C):
                 r["tag"] = tag
                 return r
             mc_futs = [ex.submit(mc, tag, txt) for tag, txt in C["mc_instances"](quick)]
+            for mod, tag, txt in C.get("extra_mc", lambda q: [])(quick):
+                def mc2(mod=mod, tag=tag, txt=txt):
+                    path = os.path.join(work, "mc_%s.cfg" % tag)
+                    with open(path, "w") as f:
+                        f.write(txt)
+                    r = vlib.run_tlc(work, mod, path, workers=4 if quick else 8, timeout=3000, heap="8g")
+                    r["tag"] = tag
+                    return r
+                mc_futs.append(ex.submit(mc2))
             scen = []
             for k, (tag, txt, num, base, name_of, hook_of) in enumerate(C["sim_instances"](quick)):
                 path = os.path.join(work, "sim_%s.cfg" % tag)
@@ -222,7 +231,14 @@ def _ring_name(pid):
     return "c" if pid == 0 else "a%d" % pid
 
 
+def _striped_cfg(adders, nadd, maxlen):
+    return ("SPECIFICATION Spec\nCONSTANTS\n Adders = {%s}\n NAdd = %d\n MaxLen = %d\n Attempts = 3\n CopyAll = TRUE\n"
+            "INVARIANTS RingsKept TableOK BusyFree SlotsStable\nCHECK_DEADLOCK FALSE\n" % (", ".join(map(str, range(1, adders + 1))), nadd, maxlen))
+
+
 C17 = {
+    "extra_mc": lambda quick: [("Striped", "striped_a2n2", _striped_cfg(2, 2, 4))] if quick else
+                              [("Striped", "striped_a2n3", _striped_cfg(2, 3, 4)), ("Striped", "striped_a2n2m2", _striped_cfg(2, 2, 2))],
     "pkg": "lossy", "test": "TestVerifRing", "mc_module": "Ring", "judge": "RingHist",
     "mc_instances": lambda quick: ([("a2n2s2", _ring_cfg(2, 2, 2)), ("a2n3s4", _ring_cfg(2, 3, 4))] if quick else
                                    [("a3n2s2", _ring_cfg(3, 2, 2)), ("a2n3s4", _ring_cfg(2, 3, 4)), ("a2n4s2", _ring_cfg(2, 4, 2))]),
